@@ -148,8 +148,8 @@ PROPS = {
         ['Go race detector'], level='other', custom=True),
     'C15': P(
         ['C15_missing_function_fails', 'C15_postgres_render_is_the_fold', 'C15_postgres_table_is_the_generated_one', 'C15_fuzzy_boost_unsupported', 'C15_to_postgres_rejects_fuzzy_boost'],
-        [('corpus', 0), ('custom', 5000), ('rand', 3000)],
-        [('corpus', 0), ('custom', 80000), ('rand', 30000)],
+        [('corpus', 0), ('custom', 5000), ('rand', 3000), ('nearmiss', 0)],
+        [('corpus', 0), ('custom', 80000), ('rand', 30000), ('nearmiss', 0)],
         ['parse'] + CUSTOM + ['ToPostgres', 'ToParameterizedPostgres'],
         'partial: missing function anywhere => Render fails, for every table of functions; fold order / one call per node / override locality / fuzzy-boost rejection decided by C15_check with tracing functions.',
         'random trees x function tables (all tracing, one operator removed, one overridden, both); non-trivial = tree rendered or correctly refused',
